@@ -116,3 +116,20 @@ Theorem C06_step_is_run :
          step tab g (stk, inp, reds) = Some (s, i, r) -> run (S f) tab g stk inp reds = run f tab g s i r.
 Proof. exact ViablePrefix.run_step. Qed.
 Print Assumptions C06_step_is_run.
+
+From YG Require Import LRBase CompleteDriver LR0Build Resolve Pipeline PipelineRun Front WfGrammar YParser EndToEnd ViablePrefix EndToEndWf.
+Close Scope Z_scope.
+Open Scope nat_scope.
+
+(* from the bytes of the grammar file, with no side condition: the action table the generator computes for a text never lets the LR machine shift a token that cannot continue a sentence - what was read so far followed by the shifted token is the beginning of a sentence of the grammar object (certificate, well-formedness and productivity of every symbol are proved for every text on which tables are delivered) *)
+Theorem C06_from_the_text :
+  forall (s : list Ascii.ascii) (b : built) (t : tables),
+         generate_text s = GOk b t ->
+         let g := gi_rules (b_gi b) in
+         let T := action_fun (b_gi b) (t_aut t) (t_la t) in
+         forall (n : nat) (w : list nat) (stk : list (nat * nat)) (a : nat) (inp' reds : list nat) (q' : nat),
+         nsteps n T g ([(0, eof)], w, []) = Some (stk, a :: inp', reds) ->
+         T (top_state stk) a = Shift q' ->
+         exists pre z : list nat, w = pre ++ a :: inp' /\ terminal_string g z /\ derives g [0] (pre ++ a :: z).
+Proof. exact EndToEndWf.text_never_shifts_a_bad_token. Qed.
+Print Assumptions C06_from_the_text.
